@@ -197,8 +197,11 @@ def finish(ctx: Ctx, level, technique, explanation, checker_cmd):
         "assumptions": ctx.assumptions, "wall_s": round(time.time() - ctx.t0, 2),
         "violations": len(new_viol),
     }
-    os.makedirs(os.path.join(ROOT, "evidence"), exist_ok=True)
-    with open(os.path.join(ROOT, "evidence", f"{ctx.pid}.json"), "w") as f:
+    # HV_EVIDENCE_DIR: only for the author's evaluation of seeded changes on scratch copies (HV_REPO), so that those runs do not overwrite the evidence of the real tree
+    evdir = os.environ.get("HV_EVIDENCE_DIR") if os.environ.get("HV_REPO", "/repo") != "/repo" else None
+    evdir = evdir or os.path.join(ROOT, "evidence")
+    os.makedirs(evdir, exist_ok=True)
+    with open(os.path.join(evdir, f"{ctx.pid}.json"), "w") as f:
         json.dump(ev, f, indent=1, default=str)
 
     printed = set()
